@@ -10,6 +10,16 @@ NOTE = ("Trusted: Coq 8.16.1 kernel; the hand-written Gallina model (tied to /re
         "No axioms: Print Assumptions of every property theorem is recorded in the evidence.")
 
 CLAIMED = {
+ "C03": ("Round-trip theorem over all values: NOT yet proved (Props/C03.v holds only the encoder-outcome theorem and computed examples at all six protocols) - partial. The property is decided on every run by: encoder model = implementation on the bytes (order of dict entries normalised with pickletools), decoder model = implementation on those bytes, and the direct oracle Decode(Encode(v)) = documented normal form computed independently in Python, over canonical values and their non-canonical relatives x 6 protocols x StrictUnicode x PyDict, plus a before/after dump for 'Encode never modifies its argument'.",
+         "executable Coq models of encoder and decoder tied to the code by differential runs + independent normal-form oracle (theorem pending)", "5 (C03)"),
+ "C12": ("Theorems (Props/C12.v): a protocol outside 0..5 is rejected before any Write, for every value and Writer; a successful output is [PROTO p iff p>=2] body STOP. That body uses only opcodes of protocol <= p with a balanced stack is NOT yet a theorem (partial): it is decided on every run by scanning implementation and model output with CPython's pickletools (independent opcode table: introducing protocol, argument layout, stack effect; dis) for the gate matrix + random values x protocols -1..7 x StrictUnicode, and by loading protocol<=2 output under Python 2.7.",
+         "proof of framing / rejection on the encoder model + independent opcode-table scan (pickletools) + Python 2 load", "5 (C12)"),
+ "C13": ("Theorem C13_write_failure (Props/C13.v): for every configuration, value and k, if the k-th Write fails Encode returns the Writer's error and the Writes made are exactly the first k+1 of the unfailed run - a generic lemma of the writer monad the encoder model is written in. Tie: a Writer failing exactly at call k, for every k, over gate-matrix and random values x 6 protocols, plus buffering Writers.",
+         "proof (generic writer-monad lemma by induction) + exhaustive write-index sweep on the implementation", "5 (C13)"),
+ "C15": ("Theorem C15_no_panic (Props/C15.v): for every value of the reflect-level universe, every configuration and Writer behaviour, the encoder model never panics (induction over the value, every helper). Tie: values of types built with reflect.StructOf/ArrayOf/SliceOf/MapOf/pointers, a zoo of declared types with unexported/embedded/tagged fields, byte arrays by value, typed nil pointers, unsupported kinds, depth <= 4, x 6 protocols; outcome class compared with the model; TypeError kind checked.",
+         "proof (structural induction over the value universe) + reflect-generated type zoo differential", "5 (C15)"),
+ "C19": ("Theorem C19_helpers_by_type (Props/C19.v): AsString / AsBytes / AsInt64 accept exactly the documented result types and return the payload unchanged. That every integer opcode form decodes to a value with the right AsInt64 (decodeLong = two's complement, decimal parsing) is not yet a theorem (partial): decided by the run - exhaustive -2^12..2^12 (thorough 2^16), lattice to 2^70, LONG1 of every length 0..255, x every opcode form; payloads x 9 opcodes x StrictUnicode; two representations of one integer as Dict keys.",
+         "proof on the typeconv model + exhaustive small-integer / every-LONG1-length sweep against model and expectation", "5 (C19)"),
  "C07": ("Theorems (Props/C07.v), for keys whose numbers are integers of any Go integer type / *big.Int / bool, the three string kinds, Tuples, None, Class, Call, Ref: equal() = Python's == ; equal keys feed identical bytes to maphash (any seed, any hash function); a Dict holding a finds it under b iff a == b for every slot order. Keys with float/complex parts: decided by the correspondence run only (partial). Tie: ~6*10^4 ordered pairs of a boundary lattice against the model AND against CPython's own ==, plus black-box lookups in up to 4096 freshly seeded Dicts.",
          "proof (structural induction over keys, exact integer arithmetic) + lattice differential against model and CPython + seeded black-box lookups", "5 (C07)"),
  "C08": ("Theorems (Props/C08.v), integer-fragment keys, every slot order: after ANY history the Dict model's entry list equals the reference dictionary's (Set/Del remove every equal entry, Len/Iter), no two stored keys equal, Get = reference Get when at most one stored key equals the query and otherwise the value of some equal entry; the full 'most recent' statement is refuted by a vm_compute witness (known finding nontransitive_multi_match). Tie: exhaustive histories over the 10-key colliding alphabet (length <=3 quick, <=4 thorough) and long random histories against extracted RefDict and Dict model.",
